@@ -71,6 +71,20 @@ class Outcome:
         self.requests = requests or []
 
 
+def _illegal_choice(ev) -> Optional[str]:
+    """For a test of a rejection's message against ILLEGAL DATA ADDRESS, in either polarity (``==``, ``!=``, ``not ...``):
+    'illegal' when this branch is the one where the inverter said the register does not exist, else 'rejected-other'."""
+    node, val = ev.node, bool(ev.data)
+    while isinstance(node, ast.UnaryOp) and isinstance(node.op, ast.Not):
+        node, val = node.operand, not val
+    txt = norm(node)
+    if "message" not in txt or "ILLEGAL" not in txt.upper():
+        return None
+    if isinstance(node, ast.Compare) and len(node.ops) == 1 and isinstance(node.ops[0], (ast.NotEq, ast.IsNot, ast.NotIn)):
+        val = not val
+    return "illegal" if val else "rejected-other"
+
+
 class Family:
     def __init__(self, prog: Program, res: Resolver, tables: Tables, ci: ClassInfo):
         self.prog, self.res, self.tables, self.ci = prog, res, tables, ci
@@ -298,8 +312,8 @@ class Family:
                     and (call_chain(ev.node.value) or ("",))[-1] == "_read_from_socket":
                 last = self._cmd_of(ev.node.value, fn)[0]
                 sig.append((last, "rejected" if ev.data is rej else "failed"))
-            elif ev.kind == "test" and last is not None and "message" in norm(ev.node) and "ILLEGAL" in norm(ev.node).upper():
-                sig.append((last, "illegal" if ev.data else "rejected-other"))
+            elif ev.kind == "test" and last is not None and _illegal_choice(ev) is not None:
+                sig.append((last, _illegal_choice(ev)))
         self._sigs[key] = sig
         return sig
 
@@ -365,9 +379,9 @@ class Family:
                     v = self._eval_test(ev.node, st, cfg, loc, fn)
                     if v is None:
                         # free choice: remember the decision about ILLEGAL DATA ADDRESS
-                        if "message" in norm(ev.node) and "ILLEGAL" in norm(ev.node).upper():
+                        if _illegal_choice(ev) is not None:
                             cmd, kind = loc.get("last_raise", ("?", "rejected"))
-                            choice = "illegal" if ev.data else "rejected-other"
+                            choice = _illegal_choice(ev)
                             if refuse is not None and refuse.get(cmd, "ok") not in (choice,):
                                 feasible = False
                                 break
